@@ -82,7 +82,33 @@ def c11(rep, tier):
         rank = {'bool': 0, 'char': 1, 'signed char': 1, 'unsigned char': 1, 'short': 2, 'unsigned short': 2, 'int': 3, 'unsigned int': 3, 'long': 4, 'unsigned long': 4,
                 'long long': 4, 'unsigned long long': 4}
         ct, pt = (cv.get('cty') or '').replace('const ', ''), (mm.passes.get('cty') or '').replace('const ', '')
-        if ct in rank and pt in rank:
+        tmax = {'bool': 1, 'char': 127, 'signed char': 127, 'unsigned char': 255, 'short': 2 ** 15 - 1, 'unsigned short': 2 ** 16 - 1, 'int': 2 ** 31 - 1,
+                'unsigned int': 2 ** 32 - 1, 'long': 2 ** 63 - 1, 'unsigned long': 2 ** 64 - 1, 'long long': 2 ** 63 - 1, 'unsigned long long': 2 ** 64 - 1}
+        # the bound the counter is compared with is the budget itself, not the budget squeezed into a smaller type
+        bound_cast = None
+        if c is not None and c.get('k') == 'bin':
+            r_ = c['r']
+            while r_ is not None and r_.get('k') in ('cast', 'paren'):
+                if r_.get('k') == 'cast':
+                    tt = (r_.get('cty') or '').replace('const ', '')
+                    if tt in tmax and pt in tmax and tmax[tt] < tmax[pt] and strip_casts(r_).get('d') == mm.passes['d']:
+                        bound_cast = tt
+                r_ = r_['e']
+        if bound_cast:
+            A.violation('apply_macros: loop bound', 'the budget (%s) is converted to %s for the comparison: a budget above %d becomes negative or small, the loop does not run and an expansion '
+                        'that is not finished is returned without the too-many-substitutions error' % (pt, bound_cast, tmax[bound_cast]), W(am, mm.budget, mm.facts),
+                        witness={'budget': tmax[bound_cast] + 1, 'macro': 'DEFINE a AS b END DEFINE  a'})
+        i0 = strip_casts(cv['init']) if cv.get('init') is not None else None
+        if i0 is not None and i0.get('k') == 'int' and c is not None and c.get('k') == 'bin':
+            steps_lost = i0['v'] - (1 if c['op'] == '<=' else 0)
+            if steps_lost > 0:
+                A.violation('apply_macros: number of passes', 'the counter starts at %d and runs while %s: only budget-%d passes are made - with a budget of %d no pass is made at all, the change flag '
+                            'stays false and input that still contains a macro use is returned without the too-many-substitutions error' % (i0['v'], show(c), steps_lost, steps_lost),
+                            W(am, mm.budget, mm.facts), witness={'budget': steps_lost, 'macro': 'DEFINE a AS b END DEFINE  a'})
+        if ct in tmax and pt in tmax and rank.get(ct) is not None and rank[ct] >= rank[pt] and tmax[ct] < tmax[pt]:
+            A.violation('apply_macros: counter width', 'the pass counter has type %s but the budget has type %s: for budgets beyond %d the counter cannot reach the budget (signed overflow / '
+                        'a comparison that is false from the start)' % (ct, pt, tmax[ct]), W(am, mm.budget, mm.facts), witness={'budget': tmax[ct] + 1})
+        elif ct in rank and pt in rank:
             A.check(rank[ct] >= rank[pt], 'apply_macros: counter width', 'the pass counter (%s) can hold every value of the budget (%s)' % (ct, pt),
                     'the pass counter has type %s but the budget has type %s: for budgets beyond the counter\'s range the counter wraps around, the loop condition stays '
                     'true and a divergent expansion never returns' % (ct, pt), W(am, mm.budget, mm.facts), witness={'budget': 1024, 'macro': 'DEFINE a AS a a END DEFINE'})
@@ -450,7 +476,109 @@ def c10(rep, tier):
     if text_e is None:
         A.unknown('get_replacement: TEMP_VAL', 'no assignment to .text found')
         return
+    # the renamed token is complete when it is appended: no write to the appended copy's source afterwards
+    gT = mm.M.cfg(gr)
+    for s in case['s']:
+        for e in walk_all_exprs(s):
+            if (is_call(e, '::push_back') or is_call(e, '::emplace_back')) and e.get('args'):
+                pv = strip_casts(strip_copies(e['args'][0]))
+                if pv is None or pv.get('k') != 'ref' or pv.get('dk') != 'var':
+                    continue
+                pev = gT.ev(e)
+                for s2 in case['s']:
+                    for e2 in walk_all_exprs(s2):
+                        tgt = None
+                        if e2.get('k') == 'assign':
+                            tgt = e2['l']
+                        elif e2.get('k') == 'call' and (e2.get('callee') or '').endswith('::operator=') and e2.get('obj') is not None:
+                            tgt = e2['obj']
+                        if tgt is None:
+                            continue
+                        root, path = field_chain(tgt)
+                        root = strip_casts(root) if root is not None else None
+                        if root is not None and root.get('d') == pv.get('d') and path and path[-1] in ('text', 't'):
+                            wev = gT.ev(e2)
+                            after = gT.dominates(pev, wev) or (pev.node is wev.node and pev.idx < wev.idx)
+                            if after:
+                                (A if path[-1] == 'text' else Cc).violation(
+                                    'get_replacement: %s written after the append' % show(tgt), 'the token is appended (a copy) before %s is assigned: the appended token keeps the '
+                                    'old %s, so every expansion shares the un-renamed temporary' % (show(tgt), 'text #n' if path[-1] == 'text' else 'kind TEMP_VAL'), W(gr, e2, mm.facts),
+                                    witness={'input': 'two uses of a macro whose body contains #0'})
     text_e = mm.M.inline_value(gr, text_e)
+    # the pass number enters the name as a decimal numeral that is different for every pass of the budget
+    if passp:
+        leaves = []
+
+        def concat_leaves(x):
+            x = strip_casts(strip_copies(x)) if x is not None else None
+            if x is None:
+                return
+            if x.get('k') == 'call' and x.get('op') == '+' and len((([x['obj']] if x.get('obj') is not None else []) + list(x.get('args', [])))) == 2:
+                for y in ([x['obj']] if x.get('obj') is not None else []) + list(x.get('args', [])):
+                    concat_leaves(y)
+                return
+            if x.get('k') == 'paren':
+                concat_leaves(x['e'])
+                return
+            leaves.append(x)
+        concat_leaves(text_e)
+        pass_leaves = [x for x in leaves if any(y.get('k') == 'ref' and y.get('d') == passp[0]['d'] for y in walk_expr(x))]
+
+        class _NoEval(Exception):
+            pass
+
+        def sval(x, n):
+            x = strip_casts(strip_copies(x)) if x is not None else None
+            if x is None:
+                raise _NoEval('empty')
+            k = x.get('k')
+            if k == 'paren':
+                return sval(x['e'], n)
+            if k == 'int':
+                return x['v']
+            if k == 'str':
+                return x['v']
+            if k == 'ref' and x.get('d') == passp[0]['d']:
+                return n
+            if k == 'bin' and x['op'] in ('+', '-', '*', '%', '/'):
+                a, b = sval(x['l'], n), sval(x['r'], n)
+                if not (isinstance(a, int) and isinstance(b, int)) or (x['op'] in ('%', '/') and b == 0):
+                    raise _NoEval(show(x))
+                import operator as _o
+                return {'+': _o.add, '-': _o.sub, '*': _o.mul, '%': _o.mod, '/': _o.floordiv}[x['op']](a, b)
+            if k == 'call' and (x.get('callee') or '') == 'std::to_string' and len(x.get('args', [])) == 1:
+                v = sval(x['args'][0], n)
+                if not isinstance(v, int):
+                    raise _NoEval(show(x))
+                return str(v)
+            if k == 'call' and (x.get('callee') or '').endswith('::substr') and x.get('obj') is not None:
+                base = sval(x['obj'], n)
+                args_ = [sval(a, n) for a in x.get('args', []) if not a.get('default_arg') and 'npos' not in show(a)]
+                if not isinstance(base, str) or not all(isinstance(a, int) for a in args_) or not args_ or args_[0] > len(base):
+                    raise _NoEval(show(x))
+                return base[args_[0]:] if len(args_) == 1 else base[args_[0]:args_[0] + args_[1]]
+            if k == 'construct' and len(x.get('args', [])) == 1:
+                return sval(x['args'][0], n)
+            raise _NoEval(show(x)[:60])
+        BUDGET = 1024
+        for pl in pass_leaves:
+            try:
+                seen_names = {}
+                clash = None
+                for n in range(BUDGET):
+                    v = sval(pl, n)
+                    if v in seen_names:
+                        clash = (seen_names[v], n, v)
+                        break
+                    seen_names[v] = n
+                if clash:
+                    A.violation('get_replacement: pass numeral', 'the part of the name that carries the pass number, %s, is "%s" both in pass %d and in pass %d (budget %d): '
+                                'temporaries of these two expansions coincide' % (show(pl)[:60], clash[2], clash[0], clash[1], BUDGET), W(gr, pl, mm.facts),
+                                witness={'input': 'a program that needs more than %d macro rewrites with #n temporaries live across them' % clash[1]})
+                else:
+                    A.ok('get_replacement: pass numeral', '%s is different for each of the %d passes of the default budget' % (show(pl)[:50], BUDGET), W(gr, pl, mm.facts))
+            except _NoEval as ex:
+                A.unknown('get_replacement: pass numeral', 'cannot evaluate how the pass number enters the name (%s)' % ex, W(gr, pl, mm.facts))
     deps_tok, deps_other, lits, has_pass = set(), [], [], False
     for x in walk_expr(text_e):
         if x.get('k') == 'str':
@@ -591,6 +719,24 @@ def c09(rep, tier):
         except cmpeval.Unsupported as ex:
             A.unknown('apply_macros: min_element comparator', str(ex))
     B = rep.rule('C09.b', 'priority bins are an ascending std::map visited with reverse iterators from the highest', floor=2)
+    # the priority keeps its value from the definition to the bins: no narrower field on the way
+    WIDTH = {'long': 8, 'long long': 8, 'unsigned long': 8, 'unsigned long long': 8, 'int': 4, 'unsigned int': 4, 'short': 2, 'unsigned short': 2,
+             'char': 1, 'signed char': 1, 'unsigned char': 1, 'bool': 1}
+    for f2 in mm.facts.functions:
+        if f2.get('body') is None or not f2['file'].endswith('macro.cpp') or f2['tmpl'] == 'pattern':
+            continue
+        for x in walk_all_exprs(f2['body']):
+            if x.get('k') == 'assign' and x.get('op', '=') == '=':
+                l = strip_casts(x['l'])
+                if l is not None and l.get('k') == 'member' and l.get('name') == 'priority':
+                    r0 = x['r']
+                    while r0 is not None and r0.get('k') == 'cast':
+                        r0 = r0['e']
+                    lt, rt = (l.get('cty') or '').replace('const ', ''), ((strip_copies(r0) or {}).get('cty') or '').replace('const ', '')
+                    if lt in WIDTH and rt in WIDTH and WIDTH[lt] < WIDTH[rt]:
+                        B.violation('%s: %s' % (f2['q'].split('::')[-1], show(x)[:40]), 'the priority is stored in a field of type %s but is converted as %s: priorities of %d and more wrap '
+                                    'around, and the bins are no longer visited in the order of the written priorities' % (lt, rt, 2 ** (8 * WIDTH[lt] - 1)), W(f2, x, mm.facts),
+                                    witness={'input': 'DEFINE PRIO 65536 a AS ... END DEFINE  DEFINE PRIO 1 a AS ... END DEFINE'})
     prios = None
     for st in walk_stmts(am['body']):
         if st['k'] == 'decl':
@@ -1353,6 +1499,24 @@ def c12(rep, tier):
         # a break that belongs to an inner loop or switch does not leave the collecting loop
         inner = [x for y in walk_stmts(coll['body']) if y['k'] in ('for', 'rangefor', 'while', 'do', 'switch') for x in walk_stmts(y.get('body') or {'k': 'block', 's': [z for c in y.get('cases', []) for z in c['s']]}) if x['k'] == 'break']
         exits = [x for x in exits if not any(x is y for y in inner)]
+        # ... and what one detector reports is added to what the others reported
+        for x in walk_all_exprs(coll['body']):
+            tgt = None
+            how = None
+            if x.get('k') == 'call' and x.get('obj') is not None and (x.get('callee') or '').split('::')[-1] in ('assign', 'operator=', 'swap', 'clear'):
+                tgt, how = x['obj'], (x.get('callee') or '').split('::')[-1]
+            elif x.get('k') == 'assign' and x.get('op', '=') == '=':
+                tgt, how = x['l'], '='
+            if tgt is None:
+                continue
+            root, path = field_chain(tgt)
+            root = strip_casts(root) if root is not None else None
+            declared_in_loop = root is not None and root.get('k') == 'ref' and any(
+                st2['k'] == 'decl' and any(v['d'] == root.get('d') for v in st2['vars']) for st2 in walk_stmts(coll['body']))
+            if path[-1:] == ['errors'] and 'ParseError' in (strip_casts(tgt).get('cty') or '') and not declared_in_loop:
+                Cc.violation('apply_macros: errors are accumulated', 'inside the collecting loop the result\'s error list is replaced (%s) instead of extended: only the errors of the last '
+                             'detector survive, an ambiguous macro defined earlier is dropped without any report' % how, W(am, x, mm.facts),
+                             witness={'macros': 'an ambiguous macro followed by any other macro'})
         Cc.check(not exits, 'apply_macros: error collection', 'the collecting loop (line %s) has no break/return' % coll['loc'][0],
                  'error collection can stop early (line %s): the detectors after a rejected one are neither checked nor used' % (exits[0]['loc'][0] if exits else ''), W(am, exits[0] if exits else None, mm.facts))
     D = rep.rule('C12.d', 'every write to a parse-table cell sits in the fall-through branch of a switch on that cell\'s kind whose '
